@@ -323,15 +323,14 @@ Definition run_total (input : val) : val :=
   end.
 
 (* what each entry point (id mod 100) reads under which limit:
-   header limit   : every CAR entry point; Resume's version probe runs under the DEFAULT limit whatever the
-                    caller configured (known finding resume-first-header-over-limit), so its budget has both;
+   header limit   : every CAR entry point (Resume's version probe included: repaired, it used to run under
+                    the 32 MiB default; notes/fixes/C09-resume-version-probe-limit.patch);
    section limit  : the readers that buffer a section (Next, the internal and root readers, the stores' Get);
    go-cid constant: everything that runs cid.CidFromReader (on the stream, or for the root module on the buffer);
    index chunk    : everything that may decode an index. *)
 Definition in_list (e : N) (l : list N) : bool := existsb (N.eqb e) l.
 Definition entry_hlim (e maxh : N) : N :=
   if in_list e [5; 6; 17] then 0
-  else if in_list e [7; 16] then maxh + default_maxh
   else maxh.
 Definition entry_slim (e maxs : N) : N := if in_list e [0; 1; 2; 3; 8; 11; 12] then maxs else 0.
 Definition entry_uses_cfr (e : N) : bool := in_list e [2; 3; 7; 8; 10; 11; 12; 13; 16].
@@ -347,12 +346,6 @@ Definition payload_stream (input : val) : bytes :=
 Definition case_class (input : val) : string :=
   let o := v_ropts_t (vnth 1 input) in
   if (go_max_alloc <? o_maxh o) || (go_max_alloc <? o_maxs o) then "limit-above-runtime-max"
-  else if in_list (vN (vnth 0 input) mod 100) [7; 16] &&
-          (match read_uv (vB (vnth 2 input)) with
-           | VOk l _ _ => (o_maxh o <? l) && (l <=? default_maxh)
-           | _ => false
-           end)
-  then "resume-first-header-over-limit"
   else if (let s := payload_stream input in has_short_section (S (length s)) s)
   then "section-shorter-than-its-cid"
   else "entry-" ++ (match vN (vnth 0 input) mod 100 with
